@@ -783,6 +783,8 @@ def run(ctx):
     escape_micro(ctx, ctx.rng, 300 if ctx.tier == 'quick' else 5000)
     run_cases(ctx, shadow_cases())
     run_cases(ctx, gen_cases(ctx.rng, ctx.tier))
+    from harness import carries          # C07_carries: template instances vs captured requests; one-argument-varied pairs (frame oracle)
+    carries.run(ctx)
 
 def search(ctx, seeds):
     from harness import vendorops
@@ -801,10 +803,14 @@ def search(ctx, seeds):
         except Exception:
             continue
         if j: return dict(case=json.loads(key_of(case)), what=j[0], sig=j[1], expected='schema instance / local rejection', actual={'exc': r['exc'], 'sent': [x[:400] for x in r['sent']]})
-    return None
+    from harness import carries
+    return carries.search(ctx)
 
 def reproduce(finding):
     case = finding['witness']
+    if 'carries_pair' in case:
+        from harness import carries
+        return carries.reproduce(case)
     if 'vop' in case:
         from harness import vendorops
         return vendorops.judge(case)[1] is not None
@@ -824,6 +830,9 @@ def replay(doc):
     if doc.get('case', {}).get('check') == 'enum_with_defaults':
         return _replay_enum(doc['case'])
     case = doc['case']
+    if 'carries_pair' in case:
+        from harness import carries
+        return carries.replay(case)
     if 'vop' in case:
         from harness import vendorops
         r, j = vendorops.judge(case)
